@@ -548,12 +548,26 @@ __attribute__((no_sanitize("address", "undefined"))) static void gen(rng &r, con
             size_t size = (off < 0 ? -off : off) + n;
             for (unsigned al = 0; al < 8; al++)
             {
-                // quick tier: the alignment that makes dst 8-aligned (word path
-                // when the offset is a multiple of 8) and one rotating alignment
-                bool take = th || al == (8 - d % 8) % 8 || al == (unsigned)((n + off + 40) % 8);
-                if (take)
-                    E("memmove " + B('A', al, rbytes(r, size, true)) + " " + Pp('A', d) + " " + Pp('A', s) + " " + N(n));
+                // all 8 absolute alignments: dst and src are 8-aligned together
+                // (memcpy's word path) only when the offset is a multiple of 8
+                E("memmove " + B('A', al, rbytes(r, size, true)) + " " + Pp('A', d) + " " + Pp('A', s) + " " + N(n));
             }
+        }
+    // ---- the word path of memcpy (n >= 32, both pointers 8-aligned): every
+    // length 32..160 (several rounds of the 4x loop, 0..3 rounds of the 1x loop,
+    // every tail), disjoint buffers and overlapping ones at multiples of 8
+    for (int n = 32; n <= 160; n++)
+        for (unsigned al : {0u, 8u})
+        {
+            E("memcpy " + B('A', al, bytes(n, 0xA5)) + " " + B('B', 8 - al, rbytes(r, n, true)) + " A+0 B+0 " + N(n));
+            E("memmove " + B('A', al, bytes(n, 0xA5)) + " " + B('B', al, rbytes(r, n, true)) + " A+0 B+0 " + N(n));
+        }
+    for (int off : {-64, -40, -32, -24, -16, -8, 8, 16, 32, 64})
+        for (int n = 32; n <= 100; n++)
+        {
+            size_t d = off > 0 ? off : 0, s = off < 0 ? -off : 0;
+            size_t size = (off < 0 ? -off : off) + n;
+            E("memmove " + B('A', (n % 2) * 8, rbytes(r, size, true)) + " " + Pp('A', d) + " " + Pp('A', s) + " " + N(n));
         }
     for (int n : {0, 1, 7, 8, 9, 31, 32, 33, 40, 63, 64, 65, 70})
         for (unsigned da = 0; da < 8; da++)
